@@ -75,6 +75,14 @@ type SCase struct {
 	Offline       []Change `json:"offline,omitempty"` //
 	Post2         []Change `json:"post2,omitempty"`   // changes after the reconnection
 	Faults        []Fault  `json:"faults,omitempty"`  // failing region saves on the follower
+	// Size dimension: every region key gets KeyPad extra bytes; Bulk more flow changes (bodies taken in
+	// turn from BulkBodies, regions in turn) are reported before the follower connects (BulkWhere
+	// "pre": with a fresh leader the follower catches up from index 0 in ONE response) or while it is
+	// disconnected ("offline"), so that single responses reach the MiB range.
+	KeyPad     int    `json:"key_pad,omitempty"`
+	Bulk       int    `json:"bulk,omitempty"`
+	BulkWhere  string `json:"bulk_where,omitempty"`
+	BulkBodies []Reg  `json:"bulk_bodies,omitempty"`
 	// Leader restart (last phase): BeforeRestart changes are broadcast, then the leader side is rebuilt
 	// (new RegionSyncer = fresh change log over the same region storage, so its next index is the
 	// persisted one, up to 100 behind; new gRPC server on the same address) while the follower keeps
@@ -135,7 +143,59 @@ func genChanges(t *rapid.T, label string, lens []int) []Change {
 	return out
 }
 
+// msgSize is the documented limit of one sync response (server/region_syncer/server.go msgSize,
+// which the follower sets as its receive limit); perRecord is an upper bound of what a region adds to
+// a response besides its two keys (id, epoch, up to 5 peers, leader, 4 flow counters, framing).
+const (
+	msgSize   = 8 << 20
+	perRecord = 200
+)
+
+// genBigSync draws a scenario whose largest single response is aimed at a size class below msgSize.
+func genBigSync(t *rapid.T) SCase {
+	var c SCase
+	target := rapid.SampledFrom([]int{512 << 10, 2500 << 10, 5 << 20, 6 << 20, 7 << 20, 7 << 20}).Draw(t, "targetBytes")
+	kind := rapid.SampledFrom([]string{"full", "catchup", "catchup", "offline"}).Draw(t, "bigKind")
+	c.RegionStorage = rapid.Bool().Draw(t, "regionStorage")
+	pad := func(records int) int {
+		p := (target/records - perRecord) / 2
+		if p < 0 {
+			p = 0
+		}
+		return p
+	}
+	n := 6
+	switch kind {
+	case "full":
+		n = rapid.SampledFrom([]int{100, 101, 250}).Draw(t, "n")
+		c.HistIdx = 5000
+		c.KeyPad = pad(100)
+		c.Post = genChanges(t, "npost", []int{0, 2})
+	default:
+		c.Bulk = rapid.SampledFrom([]int{1000, 3000, 9000, 9900}).Draw(t, "bulk")
+		c.KeyPad = pad(c.Bulk + 10)
+		c.BulkWhere = "pre"
+		if kind == "offline" {
+			c.BulkWhere = "offline"
+			c.HistIdx = rapid.SampledFrom([]uint64{0, 5000}).Draw(t, "hist")
+			c.Post = genChanges(t, "npost1", []int{1})
+			c.Reconnect = true
+			c.Post2 = genChanges(t, "npost2", []int{0, 2})
+		}
+		for i := 0; i < 4; i++ {
+			c.BulkBodies = append(c.BulkBodies, genReg(t, 1))
+		}
+	}
+	for i := 0; i < n; i++ {
+		c.Regions = append(c.Regions, genReg(t, 1))
+	}
+	return c
+}
+
 func genSync(t *rapid.T) SCase {
+	if rapid.IntRange(0, 15).Draw(t, "big") == 0 {
+		return genBigSync(t)
+	}
 	var c SCase
 	n := rapid.SampledFrom(sizeTable).Draw(t, "n")
 	leaderMode := rapid.SampledFrom([]int{0, 1, 1, 1, 2, 2}).Draw(t, "leaderMode")
@@ -234,21 +294,26 @@ type msg struct {
 	leaders int
 	stats   int
 	dead    bool
+	bytes   int
 }
 
 // tap wraps the server side of a sync stream: records messages, tells when the stream is bound.
 type tap struct {
 	pdpb.PD_SyncRegionsServer
-	fx      *fixture
-	no      int
-	recvs   int
-	bound   chan struct{}
-	done    chan struct{} // closed when the leader's Sync call for this stream has returned
-	sending int           // Send calls in flight
-	preMsgs int
-	post    int // regions broadcast on this stream after it was bound
-	dead    bool
-	last    *msg
+	fx       *fixture
+	no       int
+	recvs    int
+	bound    chan struct{}
+	done     chan struct{} // closed when the leader's Sync call for this stream has returned
+	sending  int           // Send calls in flight
+	hasReq   bool          // the follower's request has arrived
+	reqStart uint64        // its start index
+	regions  int           // regions sent on this stream
+	maxBytes int           // largest response sent on this stream
+	preMsgs  int
+	post     int // regions broadcast on this stream after it was bound
+	dead     bool
+	last     *msg
 }
 
 func (t *tap) Recv() (*pdpb.SyncRegionRequest, error) {
@@ -258,12 +323,19 @@ func (t *tap) Recv() (*pdpb.SyncRegionRequest, error) {
 		// Sync calls Recv again only after syncHistoryRegion returned and bindStream ran
 		close(t.bound)
 	}
+	first := t.recvs == 1
 	t.fx.mu.Unlock()
-	return t.PD_SyncRegionsServer.Recv()
+	req, err := t.PD_SyncRegionsServer.Recv()
+	if first && err == nil {
+		t.fx.mu.Lock()
+		t.hasReq, t.reqStart = true, req.GetStartIndex()
+		t.fx.mu.Unlock()
+	}
+	return req, err
 }
 
 func (t *tap) Send(r *pdpb.SyncRegionResponse) error {
-	m := &msg{stream: t.no, start: r.GetStartIndex(), leaders: len(r.GetRegionLeaders()), stats: len(r.GetRegionStats())}
+	m := &msg{stream: t.no, start: r.GetStartIndex(), leaders: len(r.GetRegionLeaders()), stats: len(r.GetRegionStats()), bytes: r.Size()}
 	for _, x := range r.GetRegions() {
 		m.ids = append(m.ids, x.GetId())
 	}
@@ -276,6 +348,10 @@ func (t *tap) Send(r *pdpb.SyncRegionResponse) error {
 	}
 	if !m.pre {
 		t.post += len(m.ids)
+	}
+	t.regions += len(m.ids)
+	if m.bytes > t.maxBytes {
+		t.maxBytes = m.bytes
 	}
 	if !t.dead {
 		t.fx.delivered += len(m.ids)
@@ -325,6 +401,7 @@ type fixture struct {
 	delivered   int // regions in messages sent on streams the follower was listening to
 	starts      int64
 	started     bool
+	rejected    string // set when the follower keeps re-requesting the same index after an answer
 	// follower storage faults (follower on its default storage only)
 	faulty         bool            // region saves of the follower go through the fault-injecting kv
 	saveAttempts   int             // region saves attempted by the follower
@@ -537,9 +614,28 @@ func (fx *fixture) waitBound(k int) *tap {
 
 // waitFollower waits until the follower has applied every message sent to it so far.
 func (fx *fixture) waitFollower(t *tap) bool {
-	return waitFor(func() bool {
+	ok := waitFor(func() bool {
 		// re-read every time: a keep-alive message (every 10 s) may be sent in between
 		fx.mu.Lock()
+		if !t.dead && t.regions > 0 && fx.rejected == "" {
+			// The runner neither stopped the follower nor the leader, yet the follower opened new
+			// streams asking for the same index again: it dropped the stream on which the leader
+			// answered (twice in a row = it will go on like that).
+			again := 0
+			for _, x := range fx.taps[t.no+1:] {
+				if x.hasReq && x.reqStart == t.reqStart {
+					again++
+				}
+			}
+			if again >= 2 {
+				fx.rejected = fmt.Sprintf("the leader answered the request from index %d with %d regions (largest response %d bytes, limit msgSize = %d) but the follower dropped the stream and asked from index %d again, %d times so far; its next index is still %d",
+					t.reqStart, t.regions, t.maxBytes, msgSize, t.reqStart, again, fx.follower.VerifNextIndex())
+			}
+		}
+		if fx.rejected != "" {
+			fx.mu.Unlock()
+			return true
+		}
 		last, delivered, attempts := t.last, fx.delivered, fx.saveAttempts
 		failsInLast := 0
 		if last != nil {
@@ -566,6 +662,7 @@ func (fx *fixture) waitFollower(t *tap) bool {
 		}
 		return fx.follower.VerifNextIndex() == want
 	})
+	return ok && fx.rejected == ""
 }
 
 // ---------------------------------------------------------------- the leader's regions (reference)
@@ -583,13 +680,14 @@ type state struct {
 	nextPeer uint64
 	want     map[uint64]*core.RegionInfo // what the leader holds, by region id
 	bc       *core.BasicCluster
+	pad      string // appended to every key (long keys)
 }
 
 func (s *state) key(v uint64) []byte {
 	if v == 0 || v == s.top {
 		return []byte{}
 	}
-	return []byte(fmt.Sprintf("%014d", v))
+	return []byte(fmt.Sprintf("%014d", v) + s.pad)
 }
 
 func (s *state) peers(b Reg) (peers []*metapb.Peer, leader *metapb.Peer) {
@@ -628,8 +726,8 @@ func (s *state) put(r *mreg) {
 	s.bc.PutRegion(r.info)
 }
 
-func newState(bc *core.BasicCluster, regs []Reg) *state {
-	s := &state{bc: bc, nextID: 1, nextPeer: 100000, want: map[uint64]*core.RegionInfo{}}
+func newState(bc *core.BasicCluster, regs []Reg, keyPad int) *state {
+	s := &state{bc: bc, nextID: 1, nextPeer: 100000, want: map[uint64]*core.RegionInfo{}, pad: strings.Repeat("k", keyPad)}
 	n := uint64(len(regs))
 	s.top = (n + 1) * 1000000
 	for i, b := range regs {
@@ -766,6 +864,7 @@ type syncResult struct {
 	restarted    bool
 	behind       uint64 // leader restart: how far the new leader's next index is behind the follower's
 	reused       int    // broadcasts after the restart that lie entirely below the follower's old index
+	maxBytes     int    // largest single response
 }
 
 // prefillExLeader fills the follower's cache the way a former leader's cache looks: regions built
@@ -849,7 +948,38 @@ func execSync(c SCase, excludeKnown bool) (res syncResult) {
 		return
 	}
 	defer fx.close()
-	st := newState(fx.leaderSrv.bc, c.Regions)
+	st := newState(fx.leaderSrv.bc, c.Regions, c.KeyPad)
+	defer func() {
+		fx.mu.Lock()
+		rejected := fx.rejected
+		for _, m := range fx.msgs {
+			if m.bytes > res.maxBytes {
+				res.maxBytes = m.bytes
+			}
+		}
+		fx.mu.Unlock()
+		if res.maxBytes > msgSize {
+			res.inconclusive = fmt.Sprintf("a response of %d bytes exceeds msgSize: outside what the syncer can deliver", res.maxBytes)
+			return
+		}
+		if rejected != "" {
+			// not a time-out: the stream errors again and again inside the supported size envelope
+			res.inconclusive = ""
+			res.diffs = append(res.diffs, diff{0, "stream", rejected})
+		}
+	}()
+	bulk := func(where string) []Change {
+		if c.BulkWhere != where || c.Bulk <= 0 || len(c.BulkBodies) == 0 {
+			return nil
+		}
+		out := make([]Change, 0, c.Bulk)
+		for j := 0; j < c.Bulk; j++ {
+			b := c.BulkBodies[j%len(c.BulkBodies)]
+			b.Flow[0] = uint64(j)
+			out = append(out, Change{Kind: "flow", Pick: j, Body: b})
+		}
+		return out
+	}
 	if c.ExTerm > 0 {
 		res.exLeader = prefillExLeader(fx.followerSrv.bc, st, c)
 	}
@@ -896,7 +1026,7 @@ func execSync(c SCase, excludeKnown bool) (res syncResult) {
 	}
 
 	// changes before the follower connects
-	if n := report(c.Pre); !leaderAt(n) {
+	if n := report(c.Pre) + report(bulk("pre")); !leaderAt(n) {
 		res.inconclusive = "pre: the leader did not record the reported regions in time"
 		return
 	}
@@ -919,7 +1049,7 @@ func execSync(c SCase, excludeKnown bool) (res syncResult) {
 		t.dead = true
 		fx.mu.Unlock()
 		fx.follower.StopSyncWithLeader()
-		offline := [][]Change{c.Offline}
+		offline := [][]Change{c.Offline, bulk("offline")}
 		if len(c.Offline) > 0 && excludeKnown && vkit.Known(keyUnbind) {
 			// known finding: a broadcast that fails on the old stream removes whatever stream is bound
 			// under the member's name when it finishes, i.e. the new one if the follower reconnected
@@ -934,7 +1064,7 @@ func execSync(c SCase, excludeKnown bool) (res syncResult) {
 				res.inconclusive = "offline: the leader did not finish the old stream in time"
 				return
 			}
-			offline = [][]Change{c.Offline[:1], c.Offline[1:]}
+			offline = [][]Change{c.Offline[:1], c.Offline[1:], bulk("offline")}
 		}
 		for _, chs := range offline {
 			if n := report(chs); !leaderAt(n) {
@@ -942,7 +1072,7 @@ func execSync(c SCase, excludeKnown bool) (res syncResult) {
 				return
 			}
 		}
-		if len(offline) == 2 && len(offline[1]) == 0 {
+		if len(offline) == 3 && len(offline[1]) == 0 && len(offline[2]) == 0 {
 			// a single change: nothing later to observe; wait for the send to return, then a moment
 			old := t
 			waitFor(func() bool { fx.mu.Lock(); defer fx.mu.Unlock(); return old.sending == 0 })
@@ -1164,6 +1294,15 @@ func runSync(c SCase) (vkit.Info, error) {
 	info.ClassIf(res.saveFaults > 0, "follower-save-fault")
 	info.ClassIf(res.exLeader > 0, fmt.Sprintf("ex-leader-follower-term=%d", c.ExTerm))
 	info.ClassIf(res.restarted, "leader-restart")
+	switch {
+	case res.maxBytes >= 4<<20:
+		info.Class("largest-response=4-8MiB")
+	case res.maxBytes >= 1<<20:
+		info.Class("largest-response=1-4MiB")
+	case res.maxBytes >= 64<<10:
+		info.Class("largest-response=64KiB-1MiB")
+	}
+	info.ClassIf(c.Bulk > 0, "follower-behind>=1000-records")
 	info.ClassIf(res.restarted && res.behind == 0, "leader-restart-index-behind=0")
 	info.ClassIf(res.restarted && res.behind > 0 && res.behind <= 100, "leader-restart-index-behind=1..100")
 	info.ClassIf(res.restarted && res.behind > 100, "leader-restart-index-unrelated")
@@ -1198,7 +1337,7 @@ func runSync(c SCase) (vkit.Info, error) {
 	h := fnv.New64a()
 	fmt.Fprintf(h, "%+v", c)
 	info.Sample = map[string]interface{}{"regions": n, "hist": c.HistIdx, "hist_plus_n": c.HistPlusN, "pre": len(c.Pre), "post": len(c.Post),
-		"reconnect": c.Reconnect, "offline": len(c.Offline), "post2": len(c.Post2), "region_storage": c.RegionStorage, "save_faults": res.saveFaults, "ex_leader_regions": res.exLeader, "ex_term": c.ExTerm, "leader_restart": c.LeaderRestart, "before_restart": len(c.BeforeRestart), "after_restart": len(c.AfterRestart),
+		"reconnect": c.Reconnect, "offline": len(c.Offline), "post2": len(c.Post2), "region_storage": c.RegionStorage, "save_faults": res.saveFaults, "ex_leader_regions": res.exLeader, "ex_term": c.ExTerm, "key_pad": c.KeyPad, "bulk": c.Bulk, "bulk_where": c.BulkWhere, "largest_response": res.maxBytes, "leader_restart": c.LeaderRestart, "before_restart": len(c.BeforeRestart), "after_restart": len(c.AfterRestart),
 		"full_sync_batches": res.fullBatches, "regions_sent": res.sent, "with_leader": res.withLeader, "case_fnv64": fmt.Sprintf("%016x", h.Sum64())}
 	return info, nil
 }
